@@ -92,6 +92,49 @@ def analyse(cls_name, fname):
     return graph
 
 
+def check_factories():
+    """the command factories must be what their names say: Inverter._read_command & co. delegate to the protocol object's factory of
+    the same kind, and the protocol factories return a freshly constructed command of that kind (no caches, no dispatch)"""
+    inv, _ = load('inverter.py')
+    want = {'_read_command': 'read_command', '_write_command': 'write_command', '_write_multi_command': 'write_multi_command'}
+    meths = methods_of(inv['Inverter'])
+    for name, target in want.items():
+        fn = meths.get(name)
+        if fn is None: raise Unsupported(f'callgraph: Inverter.{name} is missing')
+        body = [n for n in fn.body if not (isinstance(n, ast.Expr) and isinstance(n.value, ast.Constant))]
+        argnames = [a.arg for a in fn.args.args[1:]]
+        ok = (len(body) == 1 and isinstance(body[0], ast.Return) and isinstance(body[0].value, ast.Call)
+              and ast.unparse(body[0].value.func) == f'self._protocol.{target}'
+              and [ast.unparse(a) for a in body[0].value.args] == argnames and not body[0].value.keywords)
+        if not ok: fail(fn, f'Inverter.{name} is not a plain delegation to self._protocol.{target}')
+    prot, _ = load('protocol.py')
+    table = {'UdpInverterProtocol': {'read_command': 'ModbusRtuReadCommand', 'write_command': 'ModbusRtuWriteCommand', 'write_multi_command': 'ModbusRtuWriteMultiCommand'},
+             'TcpInverterProtocol': {'read_command': 'ModbusTcpReadCommand', 'write_command': 'ModbusTcpWriteCommand', 'write_multi_command': 'ModbusTcpWriteMultiCommand'}}
+    for cls, m in table.items():
+        meths = methods_of(prot[cls])
+        for name, ctor in m.items():
+            fn = meths.get(name)
+            if fn is None: raise Unsupported(f'callgraph: {cls}.{name} is missing')
+            body = [n for n in fn.body if not (isinstance(n, ast.Expr) and isinstance(n.value, ast.Constant))]
+            argnames = [a.arg for a in fn.args.args[1:]]
+            ok = (len(body) == 1 and isinstance(body[0], ast.Return) and isinstance(body[0].value, ast.Call)
+                  and ast.unparse(body[0].value.func) == ctor
+                  and [ast.unparse(a) for a in body[0].value.args] == ['self._comm_addr'] + argnames and not body[0].value.keywords)
+            if not ok: fail(fn, f'{cls}.{name} is not `return {ctor}(self._comm_addr, ...)`')
+    # the command classes: the function code in the request is the one of their kind
+    fcodes = {'ModbusRtuReadCommand': 'create_modbus_rtu_request', 'ModbusTcpReadCommand': 'create_modbus_tcp_request',
+              'ModbusRtuWriteCommand': 'create_modbus_rtu_request', 'ModbusTcpWriteCommand': 'create_modbus_tcp_request',
+              'ModbusRtuWriteMultiCommand': 'create_modbus_rtu_multi_request', 'ModbusTcpWriteMultiCommand': 'create_modbus_tcp_multi_request'}
+    cmds = {'ModbusRtuReadCommand': 'MODBUS_READ_CMD', 'ModbusTcpReadCommand': 'MODBUS_READ_CMD', 'ModbusRtuWriteCommand': 'MODBUS_WRITE_CMD',
+            'ModbusTcpWriteCommand': 'MODBUS_WRITE_CMD', 'ModbusRtuWriteMultiCommand': 'MODBUS_WRITE_MULTI_CMD', 'ModbusTcpWriteMultiCommand': 'MODBUS_WRITE_MULTI_CMD'}
+    for cls, builder in fcodes.items():
+        init = methods_of(prot[cls]).get('__init__')
+        if init is None: raise Unsupported(f'callgraph: {cls}.__init__ is missing')
+        calls = [n for n in ast.walk(init) if isinstance(n, ast.Call) and isinstance(n.func, ast.Name) and n.func.id == builder]
+        if len(calls) != 1 or len(calls[0].args) < 2 or ast.unparse(calls[0].args[1]) != cmds[cls]:
+            fail(init, f'{cls} does not build its request with {builder}(comm_addr, {cmds[cls]}, ...)')
+
+
 def cstr(s): return '"' + s + '"%string'
 
 
@@ -100,6 +143,7 @@ def generate():
            "From Coq Require Import List String.", "Import ListNotations.", "",
            "Inductive ckind := CkRead | CkWrite | CkGeneric.", ""]
     km = {'R': 'CkRead', 'W': 'CkWrite', 'G': 'CkGeneric'}
+    check_factories()
     for cls, fname in (('ET', 'et.py'), ('DT', 'dt.py'), ('ES', 'es.py')):
         g = analyse(cls, fname)
         rows = [f'  ({cstr(m)}, ([' + '; '.join(cstr(c) for c in calls) + '], [' + '; '.join(km[k] for k in kinds) + ']))' for m, (calls, kinds) in sorted(g.items())]
